@@ -31,6 +31,26 @@ claim("C08",
       "the thin clone copies only label, taxon, edge length/label and the back-reference. Equality with the induced subtree is not decided.",
       NOTE, "DESIGN.md section 2, C08")
 
+claim("C01",
+      "def-use of shift amounts, reaching definitions of the leafset accumulator, argument-wiring extraction, CFG dominance of cache resets",
+      "Static: a taxon->bit conversion exists only in the namespace (from the accession index); the stored leafset mask is 0, the leaf bit or the OR "
+      "over all children in post-order; normalisation uses the LSB of the tree's own leafset mask and compile passes the seed edge's leafset; "
+      "identity reads the split mask only; encode resets the cached maps before every exit; the predicates are wired to the right masks. "
+      "The topology iff, reconstruction and bit-trick correctness are not decided.",
+      NOTE, "DESIGN.md section 2, C01")
+claim("C04",
+      "must-pass-through on the CFG (re-encode before read unless flagged), guard dominance, forwarding analysis, sibling None-handling comparison, name resolution",
+      "Static: with default arguments every read of a tree's encoding in treecompare is dominated by that tree's encode_bipartitions(); wrappers forward the flag "
+      "and never pass a literal True; the namespace identity test dominates all uses; the length kernel's None handling is compared per argument; every "
+      "treecompare.<name> reference resolves; the split-set kernel returns the two one-sided differences. Metric axioms and numeric equality are not decided.",
+      NOTE, "DESIGN.md section 2, C04")
+claim("C10",
+      "who-may-write ownership analysis of the index state, CFG pairing in add/remove, bit-position lookup extraction, result-shape consumption analysis",
+      "Static: the accession-index state is written only by five TaxonNamespace methods; the counter is only zeroed by the constructor and incremented in add_taxon; "
+      "add/remove keep both maps and the memo paired; sort/reverse write only the member list; bit->taxon renderings go through the accession index; every caller of "
+      "_lookup_label consumes the shape it asked for; Taxon identity reads no state. Lookup contents and round trips as values are not decided.",
+      NOTE, "DESIGN.md section 2, C10")
+
 _PENDING = "rule module not yet built in this session (claimed in DESIGN.md; will move to checks when the rule lands)"
 for _p in ["C01","C02","C03","C04","C05","C06","C07","C08","C09","C10","C11","C12","C13","C15","C16","C18","C20"]:
     if _p not in CLAIMED:
